@@ -394,18 +394,20 @@ structure Inv (j : Jar) : Prop where
   cache : ∀ k v, aget k j.cache = some v → ∀ e ∈ j.cookies, e.key = k → e.c.value = v
   /-- every recorded deadline is scheduled on the heap -/
   heap : ∀ k w, aget k j.expirations = some w → (w, k) ∈ j.heap
+  /-- every stored cookie sits under a key of the `_cookies` dict -/
+  keysCover : ∀ e ∈ j.cookies, (e.dom, e.pkey) ∈ j.keys
 
 theorem inv_empty : Inv {} := by
   constructor <;> simp [aget]
 
 theorem inv_hostOnly (j : Jar) (ho : List (Str × Str)) (h : Inv j) : Inv { j with hostOnly := ho } :=
-  ⟨h.fields, h.uniq, h.cache, h.heap⟩
+  ⟨h.fields, h.uniq, h.cache, h.heap, h.keysCover⟩
 
 theorem inv_expireCookie (j : Jar) (w : Int) (k : Key) (h : Inv j) : Inv (expireCookie j w k) := by
   unfold expireCookie
   split
   · exact h
-  · refine ⟨h.fields, h.uniq, h.cache, ?_⟩
+  · refine ⟨h.fields, h.uniq, h.cache, ?_, h.keysCover⟩
     intro k' w' hk
     simp only [aget_aset] at hk
     split at hk
@@ -508,6 +510,17 @@ theorem deleteCookies_hostOnly (ks : List Key) : ∀ (j : Jar) (dn : Str × Str)
     · rintro ⟨⟨h1, h2⟩, h3⟩; exact ⟨h2, h1, h3⟩
     · rintro ⟨h2, h1, h3⟩; exact ⟨⟨h1, h2⟩, h3⟩
 
+theorem deleteCookies_keys_sub (ks : List Key) : ∀ (j : Jar) (dp : Str × Str),
+    dp ∈ j.keys → dp ∈ (deleteCookies j ks).keys := by
+  induction ks with
+  | nil => intro j dp h; exact h
+  | cons k t ih =>
+    intro j dp h
+    simp only [deleteCookies, List.foldl_cons]
+    apply ih (deleteOne j k) dp
+    simp only [deleteOne, mem_sadd]
+    exact Or.inr h
+
 theorem inv_deleteCookies (j : Jar) (ks : List Key) (h : Inv j) : Inv (deleteCookies j ks) := by
   constructor
   · intro e he
@@ -525,7 +538,8 @@ theorem inv_deleteCookies (j : Jar) (ks : List Key) (h : Inv j) : Inv (deleteCoo
     split at hk
     · cases hk
     · exact h.heap k w hk
-
+  · intro e he
+    exact deleteCookies_keys_sub ks j _ (h.keysCover e ((deleteCookies_cookies ks j e).mp he).1)
 
 /-! ### `_do_expiration` -/
 
@@ -569,7 +583,8 @@ theorem inv_deleteCookies' (j : Jar) (ks : List Key)
     (hf : ∀ e ∈ j.cookies, e.c.domain = e.dom ∧ e.pkey = rstripSlash e.c.path)
     (hu : j.cookies.Pairwise (fun a b => a.key ≠ b.key))
     (hc : ∀ k v, aget k j.cache = some v → ∀ e ∈ j.cookies, e.key = k → e.c.value = v)
-    (hh : ∀ k w, k ∉ ks → aget k j.expirations = some w → (w, k) ∈ j.heap) :
+    (hh : ∀ k w, k ∉ ks → aget k j.expirations = some w → (w, k) ∈ j.heap)
+    (hk : ∀ e ∈ j.cookies, (e.dom, e.pkey) ∈ j.keys) :
     Inv (deleteCookies j ks) := by
   constructor
   · intro e he
@@ -587,13 +602,15 @@ theorem inv_deleteCookies' (j : Jar) (ks : List Key)
     split at hk
     · cases hk
     · next hn => exact hh k w hn hk
+  · intro e he
+    exact deleteCookies_keys_sub ks j _ (hk e ((deleteCookies_cookies ks j e).mp he).1)
 
 theorem inv_doExpiration (j : Jar) (now : Int) (h : Inv j) : Inv (doExpiration j now) := by
   rw [doExpiration_eq]
   split
   · exact h
   · refine inv_deleteCookies' { j with heap := (cleanedHeap j).filter (fun e => !(decide (e.1 ≤ now))) } _
-      h.fields h.uniq h.cache ?_
+      h.fields h.uniq h.cache ?_ h.keysCover
     intro k w hn hk
     simp only at hk ⊢
     refine List.mem_filter.mpr ⟨cleanedHeap_mem j k w (h.heap k w hk) hk, ?_⟩
@@ -757,6 +774,11 @@ theorem inv_storeEntry (j : Jar) (e : Entry) (h : Inv j)
       · exact absurd hxk hne'
       · exact h.cache k v hk x hx hxk
   · exact h.heap
+  · intro x hx
+    simp only [mem_sadd]
+    rcases mem_putEntry_sub e x _ hx with rfl | hx
+    · exact Or.inl rfl
+    · exact Or.inr (h.keysCover x hx)
 
 
 /-! ### `update_cookies` -/
@@ -851,7 +873,7 @@ theorem assign_spec (j : Jar) (out : List (Str × Str)) (e : Entry) (h : Inv j) 
     subst this
     exact ⟨rfl, rfl, rfl, rfl, rfl, h⟩
   | none =>
-    refine ⟨rfl, rfl, rfl, rfl, rfl, ⟨h.fields, h.uniq, ?_, h.heap⟩⟩
+    refine ⟨rfl, rfl, rfl, rfl, rfl, ⟨h.fields, h.uniq, ?_, h.heap, h.keysCover⟩⟩
     intro k v hk x hx hxk
     simp only [aget_aset] at hk
     split at hk
@@ -922,10 +944,27 @@ theorem hits_sub (allowIp : Bool) (j : Jar) (host rpath : Str) (sec : Bool) :
       obtain ⟨_, _, ⟨he, _⟩, _⟩ := he
       exact he
 
+/-- `self._cookies[("", "")]` in `filter_cookies` creates the shared key -/
+def withShared (j : Jar) : Jar := { j with keys := sadd ([], []) j.keys }
+
+theorem inv_withShared (j : Jar) (h : Inv j) : Inv (withShared j) :=
+  ⟨h.fields, h.uniq, h.cache, h.heap, fun e he => (mem_sadd _ _ _).mpr (Or.inr (h.keysCover e he))⟩
+
+theorem filter_eq (allowIp : Bool) (now : Int) (j : Jar) (host rpath : Str) (sec : Bool) :
+    filter allowIp now j host rpath sec =
+      if j.keys.isEmpty then (j, [])
+      else (hits allowIp (doExpiration j now) host rpath sec).foldl assign (withShared (doExpiration j now), []) := by
+  rfl
+
+theorem hits_sub' (allowIp : Bool) (j : Jar) (host rpath : Str) (sec : Bool) :
+    ∀ e ∈ hits allowIp j host rpath sec, e ∈ (withShared j).cookies := hits_sub allowIp j host rpath sec
+
 theorem inv_filter (allowIp : Bool) (now : Int) (j : Jar) (host rpath : Str) (sec : Bool) (h : Inv j) :
     Inv (filter allowIp now j host rpath sec).1 := by
-  unfold filter
-  exact (fold_assign _ _ [] (inv_doExpiration j now h) (hits_sub _ _ _ _ _)).2.2.2.2.1
+  rw [filter_eq]
+  split
+  · exact h
+  · exact (fold_assign _ _ [] (inv_withShared _ (inv_doExpiration j now h)) (hits_sub' _ _ _ _ _)).2.2.2.2.1
 
 theorem inv_clearDomain (now : Int) (j : Jar) (d : Str) (h : Inv j) : Inv (clearDomain now j d) := by
   unfold clearDomain
@@ -1047,10 +1086,12 @@ theorem noShared_update (allowIp : Bool) (now : Int) (h rpath : Str) (j : Jar) (
 
 theorem noShared_filter (allowIp : Bool) (now : Int) (j : Jar) (host rpath : Str) (sec : Bool) (hI : Inv j)
     (hj : NoShared j) : NoShared (filter allowIp now j host rpath sec).1 := by
-  unfold filter
-  intro e he
-  rw [(fold_assign _ _ [] (inv_doExpiration j now hI) (hits_sub _ _ _ _ _)).1] at he
-  exact noShared_doExpiration j now hj e he
+  rw [filter_eq]
+  split
+  · exact hj
+  · intro e he
+    rw [(fold_assign _ _ [] (inv_withShared _ (inv_doExpiration j now hI)) (hits_sub' _ _ _ _ _)).1] at he
+    exact noShared_doExpiration j now hj e he
 
 theorem noShared_load (allowIp : Bool) (now : Int) (data : List Saved) (hd : ∀ s ∈ data, s.dom ≠ []) :
     NoShared (load allowIp now data) := by
@@ -1094,8 +1135,8 @@ theorem noShared_step (allowIp : Bool) (w : World) (op : Op) (hop : Hostful op) 
   | saveLoad =>
     apply noShared_load
     intro s hs
-    simp only [save, List.mem_map] at hs
-    obtain ⟨e, he, rfl⟩ := hs
+    simp only [save, List.mem_flatMap, List.mem_map, atKey, List.mem_filter] at hs
+    obtain ⟨_, _, e, ⟨he, _⟩, rfl⟩ := hs
     exact h e he
 
 theorem noShared_run (allowIp : Bool) (ops : List Op) : ∀ (w : World), (∀ op ∈ ops, Hostful op) → Inv w.jar →
@@ -1246,15 +1287,29 @@ theorem filter_out_spec (allowIp : Bool) (now : Int) (j : Jar) (host rpath : Str
       ∃ e ∈ hits allowIp (doExpiration j now) host rpath sec, e.c.name = n ∧ e.c.value = v) ∧
     (∀ e ∈ hits allowIp (doExpiration j now) host rpath sec,
       (aget e.c.name (filter allowIp now j host rpath sec).2).isSome) := by
-  unfold filter
-  obtain ⟨_, _, _, _, _, b6, _, b8⟩ :=
-    fold_assign (hits allowIp (doExpiration j now) host rpath sec) (doExpiration j now) []
-      (inv_doExpiration j now hI) (hits_sub _ _ _ _ _)
-  refine ⟨?_, b8⟩
-  intro n v hv
-  rcases b6 n v hv with h | h
-  · simp [aget] at h
-  · exact h
+  rw [filter_eq]
+  split
+  · next hk =>
+    -- an empty `_cookies` dict holds no cookie at all
+    have hnil : j.cookies = [] := by
+      cases hc : j.cookies with
+      | nil => rfl
+      | cons e t =>
+        have := hI.keysCover e (by rw [hc]; exact List.mem_cons_self)
+        have hk' : j.keys = [] := by simpa using hk
+        rw [hk'] at this; simp at this
+    refine ⟨by intro n v h; simp [aget] at h, ?_⟩
+    intro e he
+    have := ((doExpiration_cookies j now e).mp (hits_sub _ _ _ _ _ e he)).1
+    rw [hnil] at this; simp at this
+  · obtain ⟨_, _, _, _, _, b6, _, b8⟩ :=
+      fold_assign (hits allowIp (doExpiration j now) host rpath sec) (withShared (doExpiration j now)) []
+        (inv_withShared _ (inv_doExpiration j now hI)) (hits_sub' _ _ _ _ _)
+    refine ⟨?_, b8⟩
+    intro n v hv
+    rcases b6 n v hv with h | h
+    · simp [aget] at h
+    · exact h
 
 /-- an entry that survives `_do_expiration` was there before and its recorded deadline is in the future -/
 theorem survivor (j : Jar) (now : Int) (hI : Inv j) (e : Entry) (he : e ∈ (doExpiration j now).cookies) :
